@@ -417,6 +417,28 @@ class Body:
             self._prov[l] = res
         return res
 
+    def value_sources(self, prov):
+        """Leaves feeding a computed value: ('val', (bb, i)) terms (binary / unary / checked
+        arithmetic, len, ..) are expanded into the provenance of their operands, transitively."""
+        out, seen, work = set(), set(), list(prov)
+        while work:
+            t = work.pop()
+            if t in seen:
+                continue
+            seen.add(t)
+            if t[0] != "val":
+                out.add(t)
+                continue
+            rv = self.blocks[t[1][0]]["stmts"][t[1][1]]["rv"]
+            ops = [rv[k] for k in ("a", "b", "op") if isinstance(rv.get(k), dict)] + list(rv.get("ops", []))
+            if not ops and "p" in rv:
+                work.extend(self.place_prov(rv["p"]))
+            if not ops and "p" not in rv:
+                out.add(t)
+            for o in ops:
+                work.extend(self.operand_prov(o))
+        return frozenset(out)
+
     def term_name(self, term):
         """Human-readable, line-free name of a provenance term."""
         rk, rd, path = term
